@@ -31,16 +31,15 @@ def r1_rooted(chk: Check):
     rd = ReachingDefs(g)
     rets = [n for n in g.live if n.kind == "stmt" and isinstance(n.ast, ast.Return)]
     chk.min_instances(len(rets), 1, "returns of PathGenerator.__call__")
+    from ..dataflow import expansions
+
     for n in rets:
-        vals = set()
-        if isinstance(n.ast.value, ast.Name):
-            for d in rd.defs_at(n.ast.value.id, n):
-                vals.add(src(d.value) if d.value is not None else "?")
-        else:
-            vals.add(src(n.ast.value))
+        vals = expansions(rd, n.ast.value, n, depth=6) if n.ast.value is not None else {"None"}
         ok = all(v.startswith("context.currentpath() / ") for v in vals) and vals
         chk.require(ok, chk.fkey(f, "rooted at the current position"), f"a generated path is {sorted(vals)}: it must be <context position> / <relative part> on every branch", chk.loc(f.module, n.ast))
         for v in vals:
+            if not v.startswith("context.currentpath() / "):
+                continue
             rel = v[len("context.currentpath() / "):]
             chk.require(rel in ("Path(self.path)", "self.path(context, config)", "self.path"), chk.fkey(f, "relative part " + rel), f"relative part `{rel}` is not the declared file name", chk.loc(f.module, n.ast))
     cp = tree.func("core.objects", "ConfigWalkContext.currentpath")
